@@ -139,6 +139,65 @@ def sections_variants(f):
     return out
 
 
+def split_sections(f):
+    """(prefix up to the section table, [(name, body)]) of a b1/b2 bundle written by the real writer"""
+    pos = 15
+    if f[0] == 0x86:
+        n, h = c10.read_head(f, pos); pos += h + n
+    pre = f[:pos]
+    tl, h = c10.read_head(f, pos)
+    table = f[pos + h: pos + h + tl]; pos += h + tl
+    cnt, tp = c10.read_head(table, 0)
+    secs = []
+    for _ in range(cnt // 2):
+        ln, h2 = c10.read_head(table, tp); name = table[tp + h2: tp + h2 + ln]; tp += h2 + ln
+        v, h3 = c10.read_head(table, tp); tp += h3
+        secs.append((name, v))
+    pos += 1                                   # sections array head
+    bodies = []
+    for name, v in secs:
+        bodies.append((name, f[pos:pos + v])); pos += v
+    return pre, bodies
+
+
+def join_sections(pre, bodies):
+    tab = enc_head(4, 2 * len(bodies)) + b''.join(enc_head(3, len(nm)) + nm + enc_head(0, len(bd)) for nm, bd in bodies)
+    body = pre + enc_head(2, len(tab)) + tab + enc_head(4, len(bodies)) + b''.join(bd for nm, bd in bodies)
+    return body + b'\x48' + (len(body) + 9).to_bytes(8, 'big')
+
+
+def index_mutants(f):
+    """index entries (offset, length) replaced inside the index section, with the section table and the trailing length
+    recomputed so that the rest of the file stays consistent: 64-bit wrap-around pairs, entries reaching before / beyond the
+    responses section, entries into other sections"""
+    out = []
+    try:
+        pre, bodies = split_sections(f)
+        idx = [i for i, (nm, bd) in enumerate(bodies) if nm == b'index'][0]
+        ib = bodies[idx][1]
+        resp_len = len(bodies[-1][1])
+        heads = []
+        walk(ib, 0, len(ib), heads)
+        uints = [(pos, hl, v) for (pos, hl, mt, v) in heads if mt == 0]
+        M = 1 << 64
+        for (p1, h1, v1), (p2, h2, v2) in zip(uints, uints[1:]):
+            if p2 != p1 + h1:
+                continue
+            cands = set()
+            for ln in {v2, 1, resp_len, resp_len // 2, max(resp_len - 1, 1)}:
+                for off in (M - ln, M - ln + 1, M - ln - 1, M - 1, resp_len - ln + 1 if resp_len >= ln else 0, resp_len, M // 2):
+                    if 0 <= off < M and 0 < ln < M:
+                        cands.add((off, ln))
+            cands |= {(v1, resp_len + 1), (v1, M - 1), (v1, M - v1), (v1 + 1, v2), (0, resp_len), (resp_len, 0), (M - 1, 0)}
+            for off, ln in sorted(cands):
+                if not (0 <= off < M and 0 <= ln < M): continue
+                nb = ib[:p1] + enc_head(0, off) + enc_head(0, ln) + ib[p2 + h2:]
+                out.append(join_sections(pre, bodies[:idx] + [(b'index', nb)] + bodies[idx + 1:]))
+    except Exception:
+        pass
+    return out
+
+
 def run(ctx):
     rng, thorough = ctx.rng, ctx.tier == 'thorough'
     w = sxg_setup(ctx)
@@ -163,6 +222,7 @@ def run(ctx):
         muts.append(f)
         muts += mutants(rng, f, thorough)
         muts += sections_variants(f)
+        muts += index_mutants(f)
         muts += c10.retabled(f)            # declared section lengths whose sum wraps / single huge entries (table re-measured)
     # F5/F6/F7 witnesses built by hand
     seen, uniq = set(), []
@@ -170,5 +230,10 @@ def run(ctx):
         if mfile not in seen:
             seen.add(mfile); uniq.append(mfile)
     if not thorough and len(uniq) > 20000:
-        uniq = [uniq[i] for i in sorted(rng.sample(range(len(uniq)), 20000))]     # a sample, not a prefix: every seed bundle stays represented
+        keep = set()
+        for f in files:
+            keep.update(index_mutants(f)); keep.update(c10.retabled(f)); keep.update(sections_variants(f)); keep.add(f)
+        rest = [u for u in uniq if u not in keep]
+        first = [u for u in uniq if u in keep]
+        uniq = first + [rest[i] for i in sorted(rng.sample(range(len(rest)), max(0, min(len(rest), 20000 - len(first)))))]   # structured mutants all kept; the rest sampled
     read_stage(ctx, [hexs(x) for x in uniq])
